@@ -713,7 +713,7 @@ theorem convNkw_plain (m : Mode) (cls : String) (nkw : KV) (h : rewritesNkw cls 
 
 def convHead (cfg : Cfg) (m : Mode) (guard : Bool) (x : Op) : Option Op :=
       match x with
-      | .leaf l => some (.leaf (convLeaf m guard l))
+      | .leaf l => some (.leaf (convLeaf m (guard || cfg.baseToGuard) l))
       | .val v => some (.val v)
       | .node c a dn d nkw hid =>
         match m with
@@ -746,6 +746,14 @@ theorem conv_node (cfg : Cfg) (m : Mode) (cls : String) (a : List Op) (dn : List
     match convL cfg (nodeMode m cls) (floatOnlyTo cls) a, convL cfg (nodeMode m cls) (floatOnlyTo cls) d with
     | some a', some d' => construct cfg cls a' (kwOf dn d' (convNkw m cls nkw))
     | _, _ => none := by cases m <;> rfl
+
+/-- positional and keyword tensor lists are converted by the same leaf law -/
+theorem convL_leaves (cfg : Cfg) (m : Mode) (guard : Bool) : ∀ (ls : List Leaf),
+    convL cfg m guard (ls.map Op.leaf) = some (ls.map fun l => Op.leaf (convLeaf m (guard || cfg.baseToGuard) l))
+  | [] => rfl
+  | l :: ls => by
+    rw [List.map_cons, convL_cons, convL_leaves cfg m guard ls]
+    rfl
 
 theorem convHead_skel (cfg : Cfg) (m : Mode) (guard : Bool) (x : Op)
     (ih : ∀ m', ∃ y, conv cfg m' x = some y ∧ skel y = skel x) :
